@@ -4,6 +4,21 @@ import json, os
 ROOT = os.path.dirname(os.path.dirname(os.path.abspath(__file__)))
 
 CHECKS = {
+ "C12": dict(
+  level="model_checking", design="6/C12", engine="sched",
+  technique="stateless schedule exploration: preemption-bounded baton scheduler over real threads racing on the real lazycompile wrapper (stub + real Numba compilation), controlled dask scheduler enumerating task orders with bounded deviations, virtual prange (AST transform, one cooperative thread per row); exhaustive configuration product (chunkings x layouts x schedulers x thread counts)",
+  text="All interleavings at line granularity / preemption-bounded at bytecode granularity for 2-3 threads; dask task orders with <=1 (2) deviations for 17 accessor operations; all 32 (y,x) chunkings x 3 (6) layouts x 2 (7) schedulers; all 31 time chunkings (raise or equal eager); pixel permutations; thread counts 1..16; prange body interleavings with <=2 (3) preemptions. Oracle: eager / sequential result, bit-exact.",
+  note="Native-code interleavings (GIL-free gufunc loops, Numba threading layer) are not controllable from Python; configurations are enumerated there. The free-running lazy pass is sampling and reported as a supplement."),
+ "C13": dict(
+  level="translation_validation", design="6/C13", engine="sse-product",
+  technique="bounded exhaustive differential execution of every discovered @njit/@guvectorize program (35) compiled vs its own source under CPython (numba types -> NumPy dtypes, callees compiled) on exhaustive word sets per dtype; SciPy special functions in nopython code vs scipy.special on log grids",
+  text="35 programs, ~40k (400k) input cases, 120k special-function evaluations; tolerances as stated in the property; selection ties decided by the C04/C05 reference.",
+  note="Inputs on which the interpreter overflows / raises are out-of-domain and counted; legacy ops/whit.py is excluded (not imported by the package)."),
+ "C14": dict(
+  level="exploration", design="6/C14", engine="sse-product",
+  technique="bounded exhaustive enumeration of boundary-sized in-contract inputs per kernel, executed in child processes compiled with NUMBA_BOUNDSCHECK=1 (IndexError on any out-of-bounds index); two sentinel-filled caller-owned output buffers per gufunc call expose unwritten elements",
+  text="Every word over {ND,10,90} of length 2..7/8 for all smoothers with srange lengths 2..4, every template/mark/label pattern for tinterpolate, every zone assignment for 1x1..3x3 rasters, every window, labeling and calibration pair for the stats kernels.",
+  note="Negative wrap-around indices are legal and not reported; bounds checking self-test runs in every child."),
  "C07": dict(
   level="exploration", design="6/C07", engine="sse-product",
   technique="bounded exhaustive enumeration of words over {ND,0,1,2,7,30} x all calibration windows x 4 kernel entry points + accessor, and a deterministic quantile-grid family, against an independent SciPy evaluation of the SPI definition with an interval for the fitted shape",
